@@ -750,6 +750,19 @@ class GCodeBuilder(GCodeCore):
         keys = ["S", "R"]  # Wait when heating, or wait always
         temperature = self._get_user_param(keys, kwargs)
 
+        # Every temperature written must be within the user bounds
+
+        bounds_name = {
+            HaltMode.WAIT_FOR_BED: "bed-temperature",
+            HaltMode.WAIT_FOR_HOTEND: "hotend-temperature",
+            HaltMode.WAIT_FOR_CHAMBER: "chamber-temperature",
+        }.get(mode)
+
+        if bounds_name is not None:
+            for key, value in kwargs.items():
+                if key.upper() in keys and value is not None:
+                    self.state._user_bounds.validate(bounds_name, value)
+
         if temperature is not None:
             if mode == HaltMode.WAIT_FOR_BED:
                 self.state._set_target_bed_temperature(temperature)
